@@ -328,7 +328,7 @@ PROPS = {
     "C08": {
         "title": "New vesting accounts get exactly the documented amount and schedule",
         "model": "Vest.v: send_to_vesting_account, new_vesting_account, create_vesting_account",
-        "runs": [vest("pools", 140, 4000), vest("", 60, 2000)],
+        "runs": [vest("pools", 140, 5000), vest("", 60, 2000), vest("split", 120, 3000)],
         "preds": ["C08."],
         "rule": VEST_RULE,
         "level_text": "Coq theorems for every amount, free fraction in [0,1], pool, restart flag and time: the code's trunc(amount - round18(amount*free)) "
